@@ -4,6 +4,7 @@ import (
 	"testing"
 )
 
+// TestSelftest runs the oracle-sensitivity self-test alone (go test -tags verif ./props/c02).
 func TestSelftest(t *testing.T) {
 	for _, tier := range []string{"quick"} {
 		killed, total, notes := selftest(tier)
@@ -14,18 +15,4 @@ func TestSelftest(t *testing.T) {
 			t.Fatalf("%s: killed %d of %d", tier, killed, total)
 		}
 	}
-}
-
-func TestSpeed(t *testing.T) {
-	n := 0
-	fails := 0
-	enumerate("quick", func(spec string) {
-		n++
-		if n%20 != 0 {
-			return
-		}
-		r := exec(spec)
-		fails += len(r.Failures)
-	})
-	t.Logf("specs %d executed %d failures %d", n, n/20, fails)
 }
